@@ -252,7 +252,7 @@ def p_c03(facts, rep, tier):
         "starts (O1); hash-table writes, WAL truncation, rollback-log unlink/truncation and the index swap can start only after Meta::write "
         "returned Ok (O3); Meta::write is one page write at offset 0 followed by a checked fsync, called only from Sync::sync and create (O4); "
         "WAL redo in recover is confined to the branch where the WAL's sequence number equals the meta page's, which derives from Meta::read (O7); "
-        "the WAL is tagged with the very value stored in the meta page and the in-memory counter advances only after the swap (O8). "
+        "the WAL is tagged with the very value stored in the meta page and the in-memory counter advances only after the swap (O8); in the sync writer and in the WAL redo every mutation of the occupancy map is followed on every path by queueing that map page for writeout (O12). "
         "Decides the before/after-the-barrier structure for all histories and crash points; data-level recovery correctness is not decided."
     )
     ctx = sync_ctx(facts)
@@ -261,6 +261,7 @@ def p_c03(facts, rep, tier):
     syncorder.o4(ctx, rep)
     n7 = syncorder.o7(ctx, rep)
     syncorder.o8(ctx, rep)
+    syncorder.o12(ctx, rep)
     rep.floor("O1 pre-meta write/resize events", n1, 8)
     rep.floor("O3 post-meta events", n3, 8)
     _sync_common(rep, ctx)
